@@ -58,7 +58,11 @@ Inductive case :=
    [lo, hi] is the span of the band's own frequencies (channels, RX2, ping-slot) *)
 | CFreq (k : N) (ins : list Z) (own : bool) (lo hi : Z) (o_enc : outcome (list N)) (o_dec : outcome (list Z))
 (* a CFList offered by a band through CFList.MarshalBinary / UnmarshalBinary *)
-| CCFList (cf : cflist) (lo hi : Z) (o_enc : outcome (list N)) (o_dec : outcome cflist).
+| CCFList (cf : cflist) (lo hi : Z) (o_enc : outcome (list N)) (o_dec : outcome cflist)
+(* CFList.UnmarshalBinary on arbitrary bytes (in particular band-produced CFLists with the
+   RFU bytes 12..14 of a channel-mask CFList overwritten): the decoded value, the result of
+   CFList.MarshalBinary on it, and the decoded value of the same bytes with bytes 12..14 zeroed *)
+| CCFDec (bs : list N) (o_dec : outcome cflist) (o_re : outcome (list N)) (o_dec0 : outcome cflist).
 
 Definition default_st := mkSt false 0 0 [] [] [].
 Definition cfg_st (cfg : nat) : st :=
@@ -325,6 +329,22 @@ Definition check (c : case) : N :=
                && match o_enc with Ok _ => outcome_eqb cflist_eqb o_dec (Ok cf) | _ => true end
              | CFMasks ms => outcome_eqb cflist_eqb o_dec (Ok cf)
              end)
+  | CCFDec bs o_dec o_re o_dec0 =>
+    let zb := map Z.of_N bs in
+    let is_masks := (List.length bs =? 16)%nat && (nth 15 zb 0 =? 1) in
+    code (outcome_eqb cflist_eqb (cflist_unmarshal zb) o_dec)
+         (negb (is_panic o_dec) && negb (is_panic o_re)
+          (* 16 bytes decode, anything else is an error *)
+          && Bool.eqb (is_ok o_dec) (List.length bs =? 16)%nat
+          (* what was decoded can be encoded again *)
+          && (if is_ok o_dec then is_ok o_re else true)
+          (* a channel-mask CFList holds at most six masks of 16 bits; bytes 12..14 are RFU *)
+          && (if is_masks
+              then match o_dec with
+                   | Ok (CFMasks ms) => (List.length ms <=? 6)%nat && forallb (fun m => (List.length m =? 16)%nat) ms
+                   | _ => false
+                   end && outcome_eqb cflist_eqb o_dec o_dec0
+              else true))
   end.
 
 Definition run_cases := run_with check.
